@@ -390,7 +390,9 @@ def case_astronomical(ctx, rseed):
         else:
             check_kcnf(ctx, F, k, n, m, [], label)
         ctx.judged(("astro", "kcnf", k, n, m), nontrivial=True, sample={"call": label})
-    for (k, n, m) in ((3, 2 ** 40, 5), (2, 2 ** 62, 3), (3, 10 ** 6, 7), (1, 2 ** 61, 2), (4, 2 ** 33, 3)):
+    for (k, n, m) in ((3, 2 ** 40, 5), (2, 2 ** 62, 3), (3, 10 ** 6, 7), (1, 2 ** 61, 2), (4, 2 ** 33, 3),
+                      # wide parities over universes beyond the largest float (k >= 18 with n around 2^60), few of them
+                      (18, 2 ** 61, 1), (18, 2 ** 60 + 3, 0), (20, 2 ** 62, 1), (11, 2 ** 62, 2), (12, 2 ** 61 + 1, 1)):
         seed = r.randint(0, 10 ** 6)
         label = "RandomKXOR(k=%d,n=%d,m=%d,seed=%d)" % (k, n, m, seed)
         st, F = ctx.call(rx.RandomKXOR, k, n, m, seed=seed)
